@@ -18,6 +18,9 @@
                                   lengths are computed from the member lists);
   * `file_parses_back`            and the strict RFC 8949 parser returns that item for those bytes;
   * `mandatory_members_present`   a conforming struct value has every member the reader requires.
+  * `built_block_indices_closed`  in every block built from records – any hints, any record sequence – every index stored in an item
+                                  or in a table entry addresses an existing entry of that block's own tables, and no table holds an
+                                  entry nothing refers to (`Proofs.BuilderReach.inv_build`, over the model of the table-building code).
   That the library's writers emit exactly the model writer's bytes is the `blk` correspondence (every output of
   every session, including present-but-empty structures and directly built blocks); closed indices and the
   schema validity of the values are decided by the validator `Spec.Cdns.interpret` on every output.
@@ -26,6 +29,7 @@ import CdnsVerif.Props.C13
 import CdnsVerif.Props.C06
 import CdnsVerif.Props.C01
 import CdnsVerif.Proofs.Parse
+import CdnsVerif.Proofs.BuilderReach
 
 namespace CdnsVerif.Props.C02
 open CdnsVerif.Model.Exporter CdnsVerif.Spec.Cbor
@@ -103,5 +107,13 @@ theorem mandatory_members_present (fs : List Field) (ms : List (Int × Val)) (h 
   simp only [hr, Bool.not_true, Bool.false_or, List.any_eq_true, beq_iff_eq] at this
   obtain ⟨e, he, hk⟩ := this
   exact ⟨e.2, by rw [← hk]; exact he⟩
+
+open CdnsVerif.Model.Builder in
+/-- **Closed indices.**  Every block the library builds from buffered records is referentially closed: each index held by a
+    query/response, an address-event count, a malformed message or a table entry (signatures, question and RR lists, questions,
+    RRs, malformed-message data) is below the length of the table it points into – for every hint setting and every record
+    sequence; and the tables hold nothing that is not referred to. -/
+theorem built_block_indices_closed (h : Hints) (recs : List Rec) :
+    (∀ r ∈ allRefs (build h recs), r.2 < len (build h recs) r.1) ∧ Reach (build h recs) := inv_build h recs
 
 end CdnsVerif.Props.C02
